@@ -39,7 +39,50 @@ claim('C20',
       'ast provenance lattice on comparisons in decision functions',
       'DESIGN.md 4 (T), 5 C20')
 
-for _pid in ['C01', 'C02', 'C03', 'C04', 'C06', 'C07', 'C08', 'C12', 'C13', 'C15', 'C16', 'C19']:
+claim('C03',
+      'Decides the vocabulary-and-dispatch clauses of the state-vector simulator: every named gate of Circuit binds the operator '
+      'its name denotes with the right arity (D2, by literal folding of the numqi.gate constants against canonical matrices); '
+      'Circuit.apply_state and the autograd forward loop dispatch every canonical kind to the same primitive with the same '
+      'operand roles, in storage order (D1); to_unitary transposes its row-filled matrix (U1). The core index relabelling of '
+      'apply_gate/apply_control_n_gate (computed einsum lists) is value-level and NOT decided.',
+      'Trusted: canonical gate matrices in sa/gateval.py; the role patterns of D1. kraus gates have no dispatch arm by the '
+      "source's own TODO and are excluded.",
+      'ast registry extraction + literal constant folding of gate matrices; sibling dispatch-arm comparison',
+      'DESIGN.md 4 (D), 5 C03')
+claim('C04',
+      'Decides the adjoint discipline of every hand-written backward pass: reverse sweep over the forward range (A1); op.T on the '
+      'conjugated state and op.T.conj() on the cotangent with the forward indices, sibling agreement of the two *_grad helpers, '
+      'Knill-Laflamme adjoint sweep over the reversed sequence and forward twins alpha-equivalent (A2); += accumulation for shared '
+      'slots (A3); backward return arity / save-restore arity for all 5 autograd.Function classes (A4); once_differentiable where '
+      'backward leaves torch (A5); backward dispatches to the *_grad twin of the forward primitive (D1). That the accumulated '
+      'numbers equal the derivative is value-level and NOT decided.',
+      'Trusted: the adjoint rule templates; torch.autograd.Function API contract.',
+      'ast sibling/twin comparison and operator-form classification (id / T / H) at resolved call sites',
+      'DESIGN.md 4 (A, D), 5 C04')
+claim('C07',
+      'Decides the history clause: every function that mutates the recorded gate list - including the 8 factory-made recorders - '
+      'resets the memoised tableau on every path (H1, flow-sensitive typestate over discovered memo/source fields), so a query '
+      'reflects all gates appended so far; recorder keys, tableau table, universal-circuit table and random-gate lists agree and '
+      'each key maps to the operator it names, by literal matrix evaluation (H2); the lazy accumulation composes in an order that '
+      'is U^dagger P U (H3 parity of traversal direction and multiply operand order); cached tableaux are never mutated (O1); '
+      'random gates draw from the seeded generator with correct bounds (S, S5). Phase bookkeeping (Z4 arithmetic on runtime '
+      'arrays) is value-level and NOT decided.',
+      'Trusted: mutating-method vocabulary of H1; clifford_multiply(x,y)=y o x as documented in its source comment.',
+      'structured forward typestate dataflow (may-mutated / must-reset) + table agreement by literal gate-matrix folding',
+      'DESIGN.md 4 (H, O), 5 C07')
+claim('C19',
+      'Decides, exhaustively for the 8 shipped codes, by abstract interpretation of the literal Clifford encoders in the stabilizer-'
+      'tableau domain (Q4): every listed stabilizer string is in the stabilizer group of the encoder with sign +1 (fixes every code '
+      'word), and every Pauli error of weight 1..d-1 (31713 for the 11-qubit code) is detected or degenerate, i.e. Knill-Laflamme '
+      'holds below the distance. Also: the stabilizer-string parser appends the fixed Pauli of each letter in both arms (Q1), '
+      'make_error_list enumerates each weight-w Pauli exactly once by construction (Q2), name/strings literals agree (Q3), the KL '
+      'custom backward follows the adjoint discipline (A). Asymmetric error sets and weight enumerators are NOT decided.',
+      'Assumes the simulator applies a recorded gate as the operator of its registry entry (D2 ties names to operators; the '
+      'embedding itself is C03). Gate conjugation tables are derived from the literal gate matrices.',
+      'abstract interpretation of literal straight-line gate programs over the Pauli tableau domain; finite exhaustive enumeration of errors below d',
+      'DESIGN.md 4 (Q), 5 C19')
+
+for _pid in ['C01', 'C02', 'C06', 'C08', 'C12', 'C13', 'C15', 'C16']:
     na(_pid, 'static rules for this property are designed (DESIGN.md 5) but not yet implemented in this revision; not claimed until they are')
 na('C09', 'bijectivity/counting of the Sp(2n,F2) indexing and the transvection lemma are properties of runtime bit vectors under data-dependent branching; no code-shape clause of substance')
 na('C14', 'group axioms of computed Cayley tables, partition and tableau counts are value-level combinatorics; only a 4x4 literal is visible statically')
